@@ -403,12 +403,26 @@ func VPH_resolveObject() {
 	}
 	id := vpHexID(0x71)
 	outcome := vp_Choice("outcome", 5)
-	var argv []string
+	var argv, last []string
+	name := "main~1:" + vp_Str("n", 2)
 	vp_Stub("(*github.com/github/git-sizer/git.Repository).GitCommand", func(r *Repository, args ...string) *exec.Cmd {
-		argv = args
+		last = args
+		for _, a := range args {
+			if a == name {
+				argv = args
+			}
+		}
 		return &exec.Cmd{}
 	})
 	vp_Stub("(*os/exec.Cmd).Output", func(c *exec.Cmd) ([]byte, error) {
+		asked := ""
+		if len(last) > 0 {
+			asked = last[len(last)-1]
+		}
+		if asked != name && outcome <= 1 {
+			// any other expression (say `<id>^{}`, `<id>^{commit}`) names another object: what it peels to
+			return []byte(vpHexID(0x72) + "\n"), nil
+		}
 		switch outcome {
 		case 0:
 			return []byte(id + "\n"), nil
@@ -422,17 +436,10 @@ func VPH_resolveObject() {
 		return []byte(""), nil
 	})
 	repo := &Repository{gitDir: ".", gitBin: "git"}
-	name := "main~1:" + vp_Str("n", 2)
 	oid, err := repo.ResolveObject(name)
-	passed := false
-	for _, a := range argv {
-		if a == name {
-			passed = true
-		}
-	}
-	vp_Assert(len(argv) >= 2 && argv[0] == "rev-parse" && passed, "the ROOT is resolved by git rev-parse and passed verbatim")
+	vp_Assert(len(argv) >= 2 && argv[0] == "rev-parse", "the ROOT is resolved by git rev-parse and passed verbatim")
 	if outcome <= 1 {
-		vp_Assert(err == nil && oid == vpOIDOf(id), "the object git names is the root")
+		vp_Assert(err == nil && oid == vpOIDOf(id), "the object git names is the root (an annotated tag stays the tag: it is not peeled)")
 	} else {
 		vp_Assert(err != nil && oid == NullOID, "an unresolvable or malformed answer is an error")
 	}
